@@ -24,7 +24,7 @@ RULE = ("random histories (quick: length 4-10, thorough: up to 16) of deepcopy /
 ASSUMPTIONS = ["added symbols/equations/classes are obtained by parsing snippets, so they are indistinguishable from parsed content",
                "flatten runs on a pickle clone of the handle, which preserves whatever objects the handle really points to",
                "flat results are compared semantically (names, types, prefixes, attribute and equation expression trees), not by Symbol.order"]
-REQUIRED_MONITORS = ["flatten_comparisons", "deepcopy_invariant_checks", "edits_applied"]
+REQUIRED_MONITORS = ["flatten_comparisons", "generate_comparisons", "deepcopy_invariant_checks", "edits_applied"]
 # the structural invariant is a diagnostic (reported in the evidence); flatten outcomes decide
 BUDGET = {"quick": 45, "thorough": 700}
 
@@ -147,6 +147,7 @@ def check_copy_invariant(src, cp):
 
 
 SNIPPET_COUNTER = [0]
+EDIT_KINDS = ("add_symbol", "remove_symbol", "add_equation", "remove_equation", "add_class", "remove_class")
 
 
 def parse_snippet(text):
@@ -179,8 +180,10 @@ class History:
             return self.op_copy(0)
         if k < 0.18 and len(self.handles) < 5:
             return self.op_copy(self.pick_handle())
-        if k < 0.62:
+        if k < 0.60:
             return self.op_edit(self.pick_handle())
+        if k < 0.72:
+            return self.op_generate(self.pick_handle())
         return self.op_flatten(self.pick_handle())
 
     def op_copy(self, hi):
@@ -272,6 +275,45 @@ class History:
         self.has_edit = True
         self.ctx.monitor("edits_applied")
         self.ctx.cover("op:%s:on-%s" % (kind, h["label"]))
+        return None
+
+    def op_generate(self, hi):
+        """sympy / xml generate directly on the handle (these backends work on a private deep copy
+        of the caller's tree); compared with generate on a fresh parse of the handle's description."""
+        import re
+        from pymoca import parser
+        r = self.r
+        h = self.handles[hi]
+        cands = mlib.flattenable_classes(h["lib"])
+        if not cands:
+            return None
+        cname = r.choice(cands)
+        kind = r.choice(["xml", "sympy"])
+        self.ops.append(["generate-" + kind, hi, cname])
+
+        def run(tree):
+            try:
+                if kind == "xml":
+                    from pymoca.backends.xml import generator as xg
+                    return ("ok", xg.generate(tree, cname))
+                from pymoca.backends.sympy import generator as sg
+                # symbol lists are ordered by Symbol.order, which differs between an edited tree and a
+                # fresh parse of the same content: compare the token multiset
+                return ("ok", sorted(re.findall(r"[A-Za-z_0-9.]+", sg.generate(tree, cname))))
+            except RecursionError:
+                return ("exc", "RecursionError")
+            except Exception as e:
+                return ("exc", type(e).__name__)
+        got = run(h["tree"])
+        fresh = parser.parse(mlib.print_library(h["lib"]), bypass_cache=True)
+        exp = run(fresh)
+        self.ctx.monitor("generate_comparisons")
+        self.ctx.cover("op:generate-%s:on-%s" % (kind, h["label"]))
+        if got != exp:
+            edits_here = [o[0] for o in self.ops if o[0] in EDIT_KINDS and o[1] == hi]
+            return ("C06:generate-%s:%s:%s" % (kind, h["label"], "own-edit-invisible" if edits_here else "differs-from-fresh-parse"),
+                    "%s generate(%s) on handle %d (%s) differs from a fresh parse of the handle's content (outcome %s vs %s)" % (
+                        kind, cname, hi, h["label"], got[0] if got[0] == "ok" else got[1], exp[0] if exp[0] == "ok" else exp[1]))
         return None
 
     def op_flatten(self, hi):
